@@ -228,7 +228,20 @@ impl<W: Write> Tracer<W> {
         let mut shadow = Parser::new();
         self.state(&vt);
         let mut pending: Vec<char> = Vec::new();
-        for op in &case.ops {
+        for (oi, op) in case.ops.iter().enumerate() {
+            // a string delimited by two marks: announce the whole span (C20 claims are made on whole sequences)
+            if let Op::Mark = op {
+                if let (Some(Op::Str(s)), Some(Op::Mark)) = (case.ops.get(oi + 1), case.ops.get(oi + 2)) {
+                    if pending.is_empty() {
+                        let cs: Vec<char> = s.chars().collect();
+                        let mut l = format!("MB {}", cs.len());
+                        for c in &cs {
+                            write!(l, " {}", *c as u32).unwrap();
+                        }
+                        writeln!(self.w, "{}", l).unwrap();
+                    }
+                }
+            }
             match op {
                 Op::Str(s) => {
                     for ch in s.chars() {
